@@ -363,7 +363,9 @@ def check_C13(res, ctx):
         g = engine.Gen(rng, cfg, nkeys=5, weights={"reopen": 2, "merge": 1, "keys": 0, "fold": 0, "dump": 0, "stat": 0, "getabsent": 0,
                                                    "emptykey": 0, "get": 1, "sync": 5, "batch": 12}, max_val=rng.choice([200, 5000, 40000]))
         ops = [o for o in g.history(30 if (ctx.quick or io == 1) else 60) if o.split()[0] not in ("dump", "stat", "files")]
-        recs, err, rc = crashcheck.run_crash(ctx, ops, mode="points", cuts="none", dumpfiles=False, timeout=(2400 if io == 1 else 900))
+        # only the write/sync event log is needed here: no crash images at all (from_op beyond the last op) - a merge adoption
+        # over hundreds of tiny files has hundreds of crash points, each image a copy of the directory and several recoveries
+        recs, err, rc = crashcheck.run_crash(ctx, ops, mode="points", cuts="none", dumpfiles=False, from_op=10 ** 9, timeout=(2400 if io == 1 else 900))
         return i, sync, cfg, ops, recs, err, rc
     for i, sync, cfg, ops, recs, err, rc in core.parallel_map(job, list(range(n)), workers=8):
         if rc != 0:
@@ -385,7 +387,7 @@ def check_C13(res, ctx):
                                     (12, ["put 6b p1:36", "del 6b", "put 6b -", "del 6b"])]):
         for io in (0, 1):
             ops = ["open d 65536 2 %d %d %d 4" % (bps, 1 + j % 3, io)] + seq + ["close"]
-            recs, err, rc = crashcheck.run_crash(ctx, ops, mode="points", cuts="none", dumpfiles=False)
+            recs, err, rc = crashcheck.run_crash(ctx, ops, mode="points", cuts="none", dumpfiles=False, from_op=10 ** 9)
             res.evaluations += 1
             res.count("threshold_boundary_runs")
             res.distinct.add("boundary%d/%d" % (j, io))
